@@ -739,3 +739,12 @@ def _register_shared_weights():
 
 
 # _register_shared_weights() is called by the driver after this module is fully imported (no import cycles)
+
+
+# the binning that reaches a worker process is rebuilt from its pickled state: it must carry the closed side (C05 unit)
+def _register_shared_round10():
+    from . import C05 as _C05
+    unit(P, "pickle_state", fuc=["yaw.binning:Binning.__getstate__", "yaw.binning:Binning.__setstate__"])(_C05.u_pickle_state)
+
+
+# _register_shared_round10() is called by the driver after this module is fully imported (no import cycles)
